@@ -7,8 +7,8 @@ pub fn family() -> Family { Family { name: "c17", cases, check } }
 
 fn bad_inputs() -> Vec<Vec<u8>> {
     let mut out: Vec<Vec<u8>> = vec![];
-    for bad in [&b"\xff"[..], b"\xc3", b"\xc3\x28", b"\xe2\x82", b"\xed\xa0\x80", b"\xf0\x9f\x92", b"\xc0\xaf", b"\x80", b"\xf8\x88\x80\x80\x80"] {
-        for (pre, post) in [(&b"\""[..], &b"\""[..]), (b"sym", b" x"), (b"", b"sym"), (b"#:", b""), (b"#\\", b""), (b"(a \"x", b"\" b)"), (b"\"\\x41;", b"\""), (b":", b"k"), (b"a", b"")] {
+    for bad in [&b"\xff"[..], b"\xc3", b"\xc3\x28", b"\xe2\x82", b"\xed\xa0\x80", b"\xf0\x9f\x92", b"\xc0\xaf", b"\x80", b"\xf8\x88\x80\x80\x80", b"\xa9", b"\xbf", b"\xc3\x41", b"\xe0\x80\xaf", b"\xf4\x90\x80\x80"] {
+        for (pre, post) in [(&b"\""[..], &b"\""[..]), (b"sym", b" x"), (b"", b"sym"), (b"#:", b""), (b"#\\", b""), (b"(a \"x", b"\" b)"), (b"\"\\x41;", b"\""), (b":", b"k"), (b"a", b""), (b"?", b""), (b"?\\", b""), (b"(?", b" x)"), (b"#\\x", b""), (b"(#\\", b")"), (b"'", b""), (b"#(", b")"), (b"\"\\", b"\"")] {
             let mut v = pre.to_vec(); v.extend_from_slice(bad); v.extend_from_slice(post); out.push(v);
         }
     }
